@@ -1,17 +1,14 @@
 package plan
 
+import "a0verif/plan/core"
+
 // Rand is the only source of pseudo-randomness in the framework: splitmix64.
 // Every choice of a run derives from VERIF_SEED through Derive.
 type Rand struct{ s uint64 }
 
 func NewRand(seed uint64) *Rand { return &Rand{s: seed} }
 
-func mix(z uint64) uint64 {
-	z += 0x9E3779B97F4A7C15
-	z = (z ^ (z >> 30)) * 0xBF58476D1CE4E5B9
-	z = (z ^ (z >> 27)) * 0x94D049BB133111EB
-	return z ^ (z >> 31)
-}
+func mix(z uint64) uint64 { return core.Mix(z) }
 
 func (r *Rand) Uint64() uint64 {
 	r.s += 0x9E3779B97F4A7C15
@@ -66,15 +63,4 @@ func Derive(master uint64, name string, i uint64) uint64 {
 }
 
 // FillByte is byte i of the deterministic extension of a device stream.
-func FillByte(fill string, seed uint64, i int) byte {
-	switch fill {
-	case "zero":
-		return 0
-	case "ff":
-		return 0xff
-	case "counter":
-		return byte(i)
-	default: // "prng"
-		return byte(mix(seed^mix(uint64(i/8))) >> (8 * uint(i%8)))
-	}
-}
+func FillByte(fill string, seed uint64, i int) byte { return core.FillByte(fill, seed, i) }
